@@ -122,7 +122,8 @@ class NumpyArrayWrapper(object):
         available in version 1.10.1 in numpy/lib/format.py.
         """
         # Set buffer size to 16 MiB to hide the Python loop overhead.
-        buffersize = max(16 * 1024**2 // array.itemsize, 1)
+        # (dtypes of item size 0, e.g. 'V0' or np.dtype([]), have no bytes at all)
+        buffersize = max(16 * 1024**2 // array.itemsize, 1) if array.itemsize else 0
         if array.dtype.hasobject:
             # We contain Python objects so we cannot write out the data
             # directly. Instead, we will pickle it out with version 2 of the
@@ -187,10 +188,14 @@ class NumpyArrayWrapper(object):
             # BUFFER_SIZE bytes to avoid issue and reduce memory overhead
             # of the read. In non-chunked case count < max_read_count, so
             # only one read is performed.
-            max_read_count = BUFFER_SIZE // min(BUFFER_SIZE, self.dtype.itemsize)
-
             array = unpickler.np.empty(count, dtype=self.dtype)
-            for i in range(0, count, max_read_count):
+            if self.dtype.itemsize > 0:
+                max_read_count = BUFFER_SIZE // min(BUFFER_SIZE, self.dtype.itemsize)
+                n_to_read = count
+            else:
+                # Nothing to read for a dtype of item size 0.
+                max_read_count, n_to_read = 1, 0
+            for i in range(0, n_to_read, max_read_count):
                 read_count = min(max_read_count, count - i)
                 read_size = int(read_count * self.dtype.itemsize)
                 data = _read_bytes(unpickler.file_handle, read_size, "array data")
